@@ -1,4 +1,4 @@
-(** C18 - the OPEN findings of the float side: executable class predicates (extracted, used by the
+(** C18 - the findings of the float side: executable class predicates (extracted, used by the
     oracle to decide whether an input lies in a listed class) and the refutations
     "as-is model <> specification" at the recorded witnesses.  The witnesses are the ones of
     findings/C18.json; each was first reproduced against the real code by the harness. *)
@@ -14,14 +14,16 @@ Definition is_half (md : mode) : bool := match md with MHalfEven | MHalfAway => 
 Definition calls_ulp (md : mode) : bool := match md with MAway | MUp | MDown => true | _ => false end.
 Definition is_halfeven (md : mode) : bool := match md with MHalfEven => true | _ => false end.
 
-(** F08 / F06 / F05 / F07, in the order the oracle tests them; [sig] is the normalised significand *)
+(** F06 / F07 are open; [sig] is the normalised significand.  F05 (known_halfeven) and F08
+    (known_unlimited) are repaired: their class predicates are kept only to state the refutations
+    of the pinned bodies and are no longer part of [known_float]. *)
 Definition known_unlimited (md : mode) (p : Z) : bool := (p =? 0) && calls_ulp md.
 Definition known_oddbase (B : Z) (md : mode) (p : Z) : bool := negb (p =? 0) && is_half md && Z.odd B.
 Definition known_halfeven (md : mode) (p : Z) : bool := negb (p =? 0) && is_halfeven md.
 Definition known_powbase (p sig : Z) : bool := negb (p =? 0) && (Z.abs sig =? 1).
 
 Definition known_float (B : Z) (md : mode) (p sig : Z) : bool :=
-  known_unlimited md p || known_oddbase B md p || known_halfeven md p || known_powbase p sig.
+  known_oddbase B md p || known_powbase p sig.
 
 (** F04  from_f32 4c000000 (2^25): the macro's interval is f +- 1/2, the true one (2^25 - 1, 2^25 + 2) *)
 Lemma simplest_from_ieee_asis_refuted :
@@ -30,13 +32,14 @@ Lemma simplest_from_ieee_asis_refuted :
   simplest_from_ieee_spec 23 8 1275068416 = Ok (Some (33554431, 1)).
 Proof. repeat split; vm_compute; reflexivity. Qed.
 
-(** F05  from_float 2 HalfEven 3 5 1  (101b * 2 = 10 with three binary digits: the significand is
-    odd, so the ties 9 and 11 round to the even neighbours 8 and 12 and the preimage of 10 is the
-    open interval (9, 11); the code tests the parity of the significand with the wrong polarity and
-    includes the end points, so it answers 9) *)
+(** F05 (repaired)  from_float 2 HalfEven 3 5 1  (101b * 2 = 10 with three binary digits: the
+    significand is odd, so the ties 9 and 11 round to the even neighbours 8 and 12 and the preimage
+    of 10 is the open interval (9, 11); the pinned code tested the parity of the significand with the
+    wrong polarity, included the end points and answered 9; the repaired code answers 10) *)
 Lemma simplest_from_float_halfeven_refuted :
-  fnormalize 2 5 1 = (5, 1) /\ known_float 2 MHalfEven 3 5 = true /\
-  simplest_from_float_asis 2 MHalfEven 3 5 1 = Ok (Some (9, 1)) /\
+  fnormalize 2 5 1 = (5, 1) /\ known_halfeven MHalfEven 3 = true /\ known_float 2 MHalfEven 3 5 = false /\
+  simplest_from_float_pinned 2 MHalfEven 3 5 1 = Ok (Some (9, 1)) /\
+  simplest_from_float_asis 2 MHalfEven 3 5 1 = Ok (Some (10, 1)) /\
   simplest_from_float_spec 2 MHalfEven 3 5 1 = Ok (Some (10, 1)) /\
   round_to_prec 2 MHalfEven 3 (9, 1) = (8, 1).
 Proof. repeat split; vm_compute; reflexivity. Qed.
@@ -56,9 +59,10 @@ Lemma simplest_from_float_powbase_refuted :
   simplest_from_float_spec 3 MAway 1 1 1 = Ok (Some (3, 1)).
 Proof. repeat split; vm_compute; reflexivity. Qed.
 
-(** F08  from_float a Away 0 7b -1  (12.3 with unlimited precision) *)
+(** F08 (repaired)  from_float a Away 0 7b -1  (12.3 with unlimited precision) *)
 Lemma simplest_from_float_unlimited_refuted :
-  known_float 10 MAway 0 123 = true /\
-  simplest_from_float_asis 10 MAway 0 123 (-1) = Panic UnlimitedPrecision /\
+  known_unlimited MAway 0 = true /\ known_float 10 MAway 0 123 = false /\
+  simplest_from_float_pinned 10 MAway 0 123 (-1) = Panic UnlimitedPrecision /\
+  simplest_from_float_asis 10 MAway 0 123 (-1) = Ok (Some (123, 10)) /\
   simplest_from_float_spec 10 MAway 0 123 (-1) = Ok (Some (123, 10)).
 Proof. repeat split; vm_compute; reflexivity. Qed.
